@@ -512,7 +512,10 @@ class Theory:
                 self.extend_constant(ext)
             elif ext.is_theorem():
                 if ext.prf:
-                    self.check_proof(ext.prf)
+                    # The proof should have no gaps, and show the stated theorem.
+                    th = self.check_proof(ext.prf, no_gaps=True)
+                    if th is None or not th.can_prove(ext.th):
+                        raise CheckProofException("proof does not show the stated theorem %s" % ext.name)
                 else:  # No proof - add as axiom
                     ext_report.add_axiom(ext.name, ext.th)
 
